@@ -117,6 +117,21 @@ structure KwargsJ (α : Type) where
   Merging : Option (MergingJ α) := none
   Outputs : Option OutputsJ := none
 
+/-- the `argparse.Namespace` that `parse_cli_args` receives (parser defaults already applied; the file list is not modelled) -/
+structure ArgsNS (α : Type) where
+  density : Option α := none
+  Rmax : α
+  Rpoints : α
+  Rdelta : Option α := none
+  fourier_filter_cutoff : Option α := none
+  lorch_flag : Bool := false
+  stem_name : String := "merged"
+  merging : α × α
+  bcoh_sqrd : α
+  btot_sqrd : α
+  real_space_function : String := "g(r)"
+  low_q_correction : Bool := false
+
 /-- one call of `_write_out_to_file(x, y, filename)` -/
 structure Written (α : Type) where
   filename : String
